@@ -15,6 +15,10 @@ import (
 type Source struct {
 	handle   *afp.TPacket
 	linkType layers.LinkType
+	// filter is the attached BPF program, applied again in user space:
+	// the socket queues every frame the interface sees from the moment
+	// it is created until the kernel filter is attached
+	filter *bpf.VM
 }
 
 // Assert that AfPacketSource conforms to the packet.ReadWriter interface
@@ -29,7 +33,7 @@ func NewPacketSource(iface string, vpnMode bool) (*Source, error) {
 	if vpnMode {
 		linkType = layers.LinkTypeIPv4
 	}
-	return &Source{handle, linkType}, nil
+	return &Source{handle: handle, linkType: linkType}, nil
 }
 
 // maxPacketLength is the maximum size of packets to capture in bytes.
@@ -50,7 +54,14 @@ func (s *Source) SetBPFFilter(bpfFilter string, maxPacketLength int) error {
 		}
 		bpfIns = append(bpfIns, rawIns)
 	}
-	return s.handle.SetBPF(bpfIns)
+	if err = s.handle.SetBPF(bpfIns); err != nil {
+		return err
+	}
+	ins, _ := bpf.Disassemble(bpfIns)
+	if vm, vmErr := bpf.NewVM(ins); vmErr == nil {
+		s.filter = vm
+	}
+	return nil
 }
 
 func (s *Source) Close() {
@@ -58,8 +69,16 @@ func (s *Source) Close() {
 }
 
 func (s *Source) ReadPacketData() ([]byte, *gopacket.CaptureInfo, error) {
-	data, ci, err := s.handle.ZeroCopyReadPacketData()
-	return data, &ci, err
+	for {
+		data, ci, err := s.handle.ZeroCopyReadPacketData()
+		if err == nil && s.filter != nil {
+			// skip frames that were queued before the filter was attached
+			if n, vmErr := s.filter.Run(data); vmErr == nil && n == 0 {
+				continue
+			}
+		}
+		return data, &ci, err
+	}
 }
 
 func (s *Source) WritePacketData(pkt []byte) error {
